@@ -120,6 +120,11 @@ def fallback_case(draw):
         text = f"{draw(_TR)} {draw(_SECW)}{draw(st.sampled_from(['', ':', ' ' + draw(_BLOCKS)]))}"
     else:
         text = draw(st.sampled_from(["", " ", "NE/4", "QJXKQ", "40 acres", "\n"]))
+    # leading / trailing artifacts that a tract description is normally cleaned of
+    prefix = draw(st.sampled_from(["", "", "", ", ", "; ", "- "])) if reason in ("no_twprge", "no_section", "nothing") else ""
+    text = prefix + text + draw(st.sampled_from(["", "", "", ",", " of", ", all in", ";", " and the", " in", ":"]))
+    if reason in ("no_twprge", "no_section", "nothing") and draw(st.integers(0, 3)) == 0:
+        cfg["segment"] = True        # copy_all is deduced for the whole text, which segment must not cut up
     return {"reason": reason, "text": text, "cfg": cfg}
 
 
@@ -148,7 +153,11 @@ def oracle_fallback(c):
         fails.append(Failure("fallback_count", f"{c['reason']}: {len(d.tracts)} tracts for {text!r} [{ctext}]: {got}", **ctx))
         return fails
     t = d.tracts[0]
-    if not whole_text_modulo_cleanup(t.desc, d.pp_desc):
+    if d.current_layout == "copy_all":
+        # copy_all deduced for the whole description: the text is kept verbatim
+        if t.desc != d.pp_desc:
+            fails.append(Failure("fallback_desc_verbatim", f"{c['reason']}: copy_all was deduced but desc {t.desc!r} is not the preprocessed text {d.pp_desc!r}", **ctx))
+    elif not whole_text_modulo_cleanup(t.desc, d.pp_desc):
         fails.append(Failure("fallback_desc", f"{c['reason']}: desc {t.desc!r} is not the whole preprocessed text {d.pp_desc!r}", **ctx))
     numeric = t.twp_num is not None and t.rge_num is not None and t.sec_num is not None
     if not numeric and not d.e_flags:
@@ -177,10 +186,10 @@ SUBS = [
         render=lambda c: {"text": c["text"]["text"], "channel": c["channel"], "other": configs.to_text(c["cfg"])},
         n={"quick": 800, "thorough": 10000}, shards={"quick": 6, "thorough": 16}, text_keys=("text",),
         essential=tuple(f"channel={ch}" for ch in CHANNELS) + ("splittable",)),
-    Sub("fallback", oracle_fallback, strategy=lambda tier: fallback_case(), classes=lambda c: [f"reason={c['reason']}"],
+    Sub("fallback", oracle_fallback, strategy=lambda tier: fallback_case(), classes=lambda c: [f"reason={c['reason']}"] + (["segment"] if c["cfg"].get("segment") else []),
         render=lambda c: {"text": c["text"], "config": configs.to_text(c["cfg"]), "reason": c["reason"]},
         n={"quick": 800, "thorough": 10000}, shards={"quick": 4, "thorough": 16},
-        essential=("reason=no_twprge", "reason=no_section", "reason=colon_required", "reason=illegal_prior", "reason=secword_without_number")),
+        essential=("reason=no_twprge", "reason=no_section", "reason=colon_required", "reason=illegal_prior", "reason=secword_without_number", "segment")),
     Sub("no_double", oracle_no_double, strategy=lambda tier: parsing.CASE, classes=parsing.text_classes,
         nontrivial=lambda c: _last.get("n", 0) >= 1 and bool(c["cfg"]),
         render=parsing.render, n={"quick": 800, "thorough": 10000}, shards={"quick": 6, "thorough": 16}, text_keys=("text",)),
